@@ -519,10 +519,11 @@ _FLIP = {'lt': 'gt', 'le': 'ge', 'gt': 'lt', 'ge': 'le', 'eq': 'eq', 'ne': 'ne'}
 
 class SR:
     """symbolic real"""
-    __slots__ = ('c', '_t', 'll')
+    __slots__ = ('c', '_t', 'll', '_rnd')
     __array_priority__ = 1000
 
     def __init__(self, t=None, ll=None, c=None):
+        self._rnd = None    # number of decimals this value is known to be rounded to
         self.c = c          # Fraction when constant
         self._t = t
         self.ll = ll        # (atoms: dict key -> (SR atom, Fraction coeff), Fraction k) or None
@@ -894,13 +895,23 @@ class SR:
                 r = SI(c=round(s.c))
                 return r if nd is None else SR(c=Fraction(r.c))
             ctx = CTX
+            key = ('round', s.t.get_id())
+            hit = ctx.fnapps.setdefault('round', {}).get(key) if isinstance(ctx.fnapps.get('round', {}), dict) else None
+            if hit is not None:
+                return SI(hit[1]) if nd is None else SR(t=z3.ToReal(hit[1]))
             v = ctx.fresh('round', 'int')
+            ctx.fnapps['round'][key] = (s.t, v)       # rounding is a function: same argument, same result
             d = z3.ToReal(v) - s.t
             half = z3.RealVal('1/2')
             ctx.solver.add(d <= half, -d <= half, z3.Implies(z3.Or(d == half, -d == half), v % 2 == 0))
             return SI(v) if nd is None else SR(t=z3.ToReal(v))
+        if s._rnd is not None and s._rnd <= int(nd):
+            return s            # already a multiple of 10**-nd: rounding again is the identity
         scale = Fraction(10) ** int(nd)
-        return SR.lift(round(s * scale, 0)) / scale
+        r = SR.lift(round(s * scale, 0)) / scale
+        if isinstance(r, SR):
+            r._rnd = int(nd)
+        return r
 
     def round(s, nd=0):
         return s.__round__(nd)
